@@ -1419,7 +1419,9 @@ class TermCanvas(Canvas):
             yield from self.term
         else:
             buf = [*self.scrollback_buffer, *self.term]
-            yield from buf[-(self.height + self.scrolling_up) : -self.scrolling_up]
+            for row in buf[-(self.height + self.scrolling_up) : -self.scrolling_up]:
+                # scrollback rows keep the width they had when they scrolled off
+                yield (row + [self.empty_char()] * (self.width - len(row)))[: self.width]
 
     def content_delta(self, other: Canvas):
         if other is self:
